@@ -1,6 +1,7 @@
 package main
 
 import (
+	"go/token"
 	"encoding/json"
 	"go/types"
 
@@ -196,7 +197,7 @@ func (ex *Exec) checkAtCallCoverage(key string, sp *FuncSpec) {
 }
 
 func (ex *Exec) lockLeak(st *State, fr *Frame) {
-	ex.oblige(st, "discipline", fr.key+"#lock-held-at-return", []string{"C15.discipline"}, "false", nil, ex.posOf(fr.retInstr))
+	ex.oblige(st, "discipline", fr.key+"#lock-held-at-return", []string{"C15.discipline", "C11.lock_released_on_every_path"}, "false", nil, ex.posOf(fr.retInstr))
 }
 
 func (ex *Exec) obligeRaw(st *State, kind, name string, labels []string, goal string) *Obligation {
@@ -311,12 +312,27 @@ func cmdCheck(args []string) int {
 			}
 		}
 	}
+	ex.activeClass = map[int]bool{}
+	if P == "C15" || *only != "" {
+		for _, cc := range specs.ClassList {
+			ex.activeClass[cc.ID] = true
+		}
+	} else {
+		keys = ex.closeRun(keys)
+	}
 	sort.Strings(keys)
 	ex.openFindings = open
 	ex.disciplineOn = P == "C15"
+	ex.inRun = map[string]bool{}
+	for _, k := range keys {
+		ex.inRun[k] = true
+	}
+	if P == "C15" {
+		ex.inRun = nil // every function in scope is verified
+	}
 	ex.propFilter = func(labels []string) bool {
 		for _, l := range labels {
-			if l == P || strings.HasPrefix(l, P+".") {
+			if l == "*" || l == P || strings.HasPrefix(l, P+".") {
 				return true
 			}
 		}
@@ -818,12 +834,11 @@ func (ex *Exec) funcsUsingSharedSpecs(P string) []string {
 		}
 	}
 	classP := false
-	for _, cc := range ex.specs.ClassList {
-		if cc.MsgInv.hasProp(P) {
-			classP = true
-		}
-	}
 	if P == "C11" {
+		// every function that takes a declared lock is a candidate for leaving it held
+		for k := range ex.specs.Locks {
+			lockKeys[k] = true
+		}
 		classP = true // every send is a candidate for "blocking while holding a teardown lock"
 	}
 	fieldP := map[string]bool{}
@@ -857,6 +872,19 @@ func (ex *Exec) funcsUsingSharedSpecs(P string) []string {
 					if classP {
 						hit = true
 					}
+				case *ssa.MakeChan:
+					// channel classes are proved at every store of a channel into the heap
+					if classP {
+						hit = true
+					}
+				case *ssa.Store:
+					if classP && containsChan(x.Val.Type(), 0) {
+						hit = true
+					}
+				case *ssa.MapUpdate:
+					if classP && containsChan(x.Value.Type(), 0) {
+						hit = true
+					}
 				case *ssa.Select:
 					if classP {
 						for _, s := range x.States {
@@ -876,7 +904,12 @@ func (ex *Exec) funcsUsingSharedSpecs(P string) []string {
 			}
 		}
 		if hit {
-			// closures without a contract of their own are verified inline in their parent
+			// closures without a contract of their own are verified inline in their parent when
+			// they are called there; goroutine bodies and stored closures are not, so they are also
+			// verified on their own
+			if fn.Parent() != nil && ex.specs.Funcs[ex.prog.Keys[fn]] == nil {
+				out = append(out, ex.prog.Keys[fn])
+			}
 			for fn.Parent() != nil && (ex.specs.Funcs[ex.prog.Keys[fn]] == nil || ex.specs.Funcs[ex.prog.Keys[fn]].Inline) {
 				fn = fn.Parent()
 			}
@@ -929,7 +962,7 @@ func (ex *Exec) closureEntry(st *State, pf *Frame, fn *ssa.Function, binds []Val
 		for _, c := range sp.Captures {
 			g := ex.evalClause(st, pf, c, nil)
 			if prove {
-				ex.oblige(st, "captures", fmt.Sprintf("%s/closure.%s.%s", parent.key, key, c.name()), c.Labels, g, c, ex.posOf(instr))
+				ex.oblige(st, "captures", fmt.Sprintf("%s/closure.%s.%s", parent.key, key, c.name()), ex.calleeLabels(c, key), g, c, ex.posOf(instr))
 			} else {
 				st.assume(g)
 			}
@@ -1088,4 +1121,287 @@ func (ex *Exec) checkCovers(covers []*Obligation, cfg SolveCfg) []string {
 	}
 	sort.Strings(out)
 	return out
+}
+
+func containsChan(t types.Type, depth int) bool {
+	if depth > 3 {
+		return false
+	}
+	switch u := types.Unalias(t).Underlying().(type) {
+	case *types.Chan:
+		return true
+	case *types.Struct:
+		for i := 0; i < u.NumFields(); i++ {
+			if containsChan(u.Field(i).Type(), depth+1) {
+				return true
+			}
+		}
+	}
+	return false
+}
+
+// addCallers: the preconditions (and captures clauses) of a function verified in this run are
+// assumptions of this run, so every in-scope function that calls it (or creates the closure, or
+// starts it with go/defer) is verified too; transitively while the added callers have
+// preconditions of their own. Callers without a contract contribute only these call-site
+// obligations (their entry state is arbitrary).
+func (ex *Exec) addCallers(keys []string) []string {
+	callers := map[string][]string{}
+	for _, k := range ex.prog.scopeFuncKeys() {
+		fn := ex.prog.Funcs[k]
+		seen := map[string]bool{}
+		add := func(t *ssa.Function) {
+			if t == nil {
+				return
+			}
+			tk := ex.prog.Keys[t]
+			if tk == "" || tk == k || seen[tk] {
+				return
+			}
+			seen[tk] = true
+			callers[tk] = append(callers[tk], k)
+		}
+		for _, b := range fn.Blocks {
+			for _, in := range b.Instrs {
+				switch x := in.(type) {
+				case ssa.CallInstruction:
+					add(x.Common().StaticCallee())
+					// method values / functions passed as arguments
+					for _, a := range x.Common().Args {
+						if mc, ok := a.(*ssa.MakeClosure); ok {
+							if f, ok := mc.Fn.(*ssa.Function); ok {
+								add(f)
+							}
+						}
+					}
+				case *ssa.MakeClosure:
+					if f, ok := x.Fn.(*ssa.Function); ok {
+						add(f)
+						// bound method closures (x.m$bound) wrap the method itself
+						if f.Synthetic != "" {
+							for _, bb := range f.Blocks {
+								for _, ii := range bb.Instrs {
+									if c, ok := ii.(ssa.CallInstruction); ok {
+										add(c.Common().StaticCallee())
+									}
+								}
+							}
+						}
+					}
+				}
+			}
+		}
+	}
+	have := map[string]bool{}
+	for _, k := range keys {
+		have[k] = true
+	}
+	work := append([]string(nil), keys...)
+	for len(work) > 0 {
+		k := work[0]
+		work = work[1:]
+		sp := ex.specs.Funcs[k]
+		if sp == nil || sp.Trusted || (len(sp.Requires) == 0 && len(sp.Captures) == 0) {
+			continue
+		}
+		for _, c := range callers[k] {
+			top := c
+			// a closure without a contract is verified inside its parent when called there; goroutine
+			// bodies are verified on their own
+			if !have[top] {
+				if csp := ex.specs.Funcs[top]; csp != nil && csp.Trusted {
+					continue
+				}
+				have[top] = true
+				keys = append(keys, top)
+				work = append(work, top)
+			}
+		}
+	}
+	return keys
+}
+
+// classElemTypes: element types of the channels of each declared class (from the makechan
+// clauses that create them).
+func (ex *Exec) classElemTypes() map[int]map[string]bool {
+	out := map[int]map[string]bool{}
+	for k, sp := range ex.specs.Funcs {
+		fn := ex.prog.Funcs[k]
+		if fn == nil {
+			continue
+		}
+		for _, g := range sp.MakeChans {
+			cc := ex.specs.Classes[g.Class]
+			if cc == nil {
+				continue
+			}
+			var mcs []*ssa.MakeChan
+			for _, b := range fn.Blocks {
+				for _, in := range b.Instrs {
+					if mc, ok := in.(*ssa.MakeChan); ok {
+						mcs = append(mcs, mc)
+					}
+				}
+			}
+			sort.SliceStable(mcs, func(i, j int) bool { return mcs[i].Pos() < mcs[j].Pos() })
+			if g.Ord < len(mcs) {
+				if out[cc.ID] == nil {
+					out[cc.ID] = map[string]bool{}
+				}
+				out[cc.ID][chanElemKey(mcs[g.Ord].Type())] = true
+			}
+		}
+	}
+	return out
+}
+
+func chanElemKey(t types.Type) string {
+	if ct, ok := types.Unalias(t).Underlying().(*types.Chan); ok {
+		return types.TypeString(ct.Elem(), nil)
+	}
+	return ""
+}
+
+// chanLeafKeys: element types of the channels contained in a value of type t
+func chanLeafKeys(t types.Type, depth int, out map[string]bool) {
+	if depth > 3 {
+		return
+	}
+	switch u := types.Unalias(t).Underlying().(type) {
+	case *types.Chan:
+		out[types.TypeString(u.Elem(), nil)] = true
+	case *types.Struct:
+		for i := 0; i < u.NumFields(); i++ {
+			chanLeafKeys(u.Field(i).Type(), depth+1, out)
+		}
+	}
+}
+
+// closeRun: the set of functions verified in a run is closed under (1) callers of functions
+// with preconditions (addCallers) and (2) channel classes: a class is active in the run when some
+// verified function receives from a channel of the class's element type (it then assumes the
+// class's message invariant); every function that sends on, creates or stores a channel of an
+// active class's element type is verified too, because that is where the invariant and the
+// class-of-location refinement are proved.
+func (ex *Exec) closeRun(keys []string) []string {
+	elems := ex.classElemTypes()
+	have := map[string]bool{}
+	for _, k := range keys {
+		have[k] = true
+	}
+	var allFns func(fn *ssa.Function, f func(*ssa.Function))
+	allFns = func(fn *ssa.Function, f func(*ssa.Function)) {
+		f(fn)
+		for _, a := range fn.AnonFuncs {
+			allFns(a, f)
+		}
+	}
+	for {
+		n := len(keys)
+		keys = ex.addCallers(keys)
+		for _, k := range keys {
+			have[k] = true
+		}
+		// classes whose invariant is assumed by a receive in the run
+		recvT := map[string]bool{}
+		for _, k := range keys {
+			fn := ex.prog.Funcs[k]
+			if fn == nil {
+				continue
+			}
+			allFns(fn, func(f *ssa.Function) {
+				for _, b := range f.Blocks {
+					for _, in := range b.Instrs {
+						switch x := in.(type) {
+						case *ssa.UnOp:
+							if x.Op == token.ARROW {
+								recvT[chanElemKey(x.X.Type())] = true
+							}
+						case *ssa.Select:
+							for _, st := range x.States {
+								if st.Dir == types.RecvOnly {
+									recvT[chanElemKey(st.Chan.Type())] = true
+								}
+							}
+						}
+					}
+				}
+			})
+		}
+		activeT := map[string]bool{}
+		for _, cc := range ex.specs.ClassList {
+			for t := range elems[cc.ID] {
+				if recvT[t] {
+					ex.activeClass[cc.ID] = true
+				}
+			}
+			if ex.activeClass[cc.ID] {
+				for t := range elems[cc.ID] {
+					activeT[t] = true
+				}
+			}
+		}
+		// functions that send on / create / store channels of an active element type
+		for _, k := range ex.prog.scopeFuncKeys() {
+			if have[k] {
+				continue
+			}
+			if sp := ex.specs.Funcs[k]; sp != nil && sp.Trusted {
+				continue
+			}
+			fn := ex.prog.Funcs[k]
+			hit := false
+			for _, b := range fn.Blocks {
+				for _, in := range b.Instrs {
+					ts := map[string]bool{}
+					switch x := in.(type) {
+					case *ssa.Send:
+						ts[chanElemKey(x.Chan.Type())] = true
+					case *ssa.Select:
+						for _, st := range x.States {
+							if st.Dir == types.SendOnly {
+								ts[chanElemKey(st.Chan.Type())] = true
+							}
+						}
+					case *ssa.MakeChan:
+						ts[chanElemKey(x.Type())] = true
+					case *ssa.Store:
+						chanLeafKeys(x.Val.Type(), 0, ts)
+					case *ssa.MapUpdate:
+						chanLeafKeys(x.Value.Type(), 0, ts)
+					}
+					for t := range ts {
+						if activeT[t] {
+							hit = true
+						}
+					}
+				}
+			}
+			if !hit {
+				continue
+			}
+			// an inline closure is verified inside its outermost parent
+			top := fn
+			for top.Parent() != nil && ex.specs.Funcs[ex.prog.Keys[top]] != nil && ex.specs.Funcs[ex.prog.Keys[top]].Inline {
+				top = top.Parent()
+			}
+			tk := ex.prog.Keys[top]
+			if tk != "" && !have[tk] {
+				have[tk] = true
+				keys = append(keys, tk)
+			}
+			// a closure without a contract that is called (not started) in its parent is covered there
+			if fn.Parent() != nil && ex.specs.Funcs[k] == nil {
+				pk := ex.prog.Keys[fn.Parent()]
+				if pk != "" && !have[pk] {
+					have[pk] = true
+					keys = append(keys, pk)
+				}
+			}
+		}
+		if len(keys) == n {
+			break
+		}
+	}
+	return keys
 }
